@@ -357,6 +357,54 @@ def job_pairs(ctx, n):
     return [(jobs[i % len(jobs)], rng.choice([0, 1, 2])) for i in range(n)]
 
 
+# ------------------------------------------------------------------ extensions: models of job-specific classes
+def extensions():
+    """tools/lib/ext_*.py modules. Each models further component classes (component/specific) and provides
+         PROPS: dict property id -> list of extra Props files (theories/Props/Cxx_<name>.v), checked like Props/Cxx.v
+         TARGETS: list of extra .vo targets the shards need
+         cases(ctx, rng, quick) -> (shards: dict name -> coq source ending in the two `Eval vm_compute in (bad [...])`
+                                     lists (reducers, views), infos: dict name -> list of case descriptions,
+                                     stats: dict)  -- same conventions as h_entity.shard_text
+    A missing/failing extension is reported as a broken correspondence, never silently skipped."""
+    import glob
+    import importlib
+    import os
+    out = []
+    for p in sorted(glob.glob("/verif/tools/lib/ext_*.py")):
+        out.append(importlib.import_module("lib." + os.path.basename(p)[:-3]))
+    return out
+
+
+def extension_correspondence(ctx):
+    rng = random.Random(ctx.seed * 53 + 11)
+    diffs, stats, samples = [], {}, []
+    for ext in extensions():
+        name = ext.__name__.split(".")[-1]
+        try:
+            ok, log, failed = ctx.build(list(getattr(ext, "TARGETS", [])))
+            if not ok:
+                diffs.append({"kind": "shard", "what": "extension %s: Coq build failed at %s: %s" % (name, failed, err_of(log))})
+                continue
+            shards, infos, st = ext.cases(ctx, rng, not ctx.thorough)
+        except Exception as e:
+            diffs.append({"kind": "shard", "what": "extension %s could not generate cases: %r" % (name, e)})
+            continue
+        stats[name] = st
+        res = ctx.coq_eval(shards)
+        for sn, (rc, out) in sorted(res.items()):
+            b = H.parse_bad_lists(out) if rc == 0 else None
+            if b is None:
+                diffs.append({"kind": "shard", "what": "extension shard %s did not evaluate: %s" % (sn, out[-300:])})
+                continue
+            for i in b[0]:
+                diffs.append(dict(infos[sn][i], kind="reducer", what="model and implementation disagree on the result of the reducer"))
+            for i in b[1]:
+                diffs.append(dict(infos[sn][i], kind="view", what="model and implementation disagree on a view of the input state"))
+        for sn in list(infos)[:1]:
+            samples += infos[sn][:1]
+    return diffs, stats, samples
+
+
 # ------------------------------------------------------------------ the common driver of C07 / C08 / C09 / C10
 def err_of(log):
     i = log.find("Error")
@@ -373,6 +421,14 @@ def run_prop(ctx, props_file, assume, known_match, witness_replay, rule, own_pur
         ctx.obligations += 1
     else:
         ctx.check_props(props_file)
+        for ext in extensions():
+            for pf in getattr(ext, "PROPS", {}).get(prop, []):
+                ok2, log2, failed2 = ctx.build([pf.replace(".v", ".vo")])
+                if not ok2:
+                    ctx.broken.append("Coq build failed at %s: %s" % (failed2, err_of(log2)))
+                    ctx.obligations += 1
+                else:
+                    ctx.check_props(pf)
     # ---- correspondence
     quick = not ctx.thorough
     jobs = job_pairs(ctx, 4 if quick else 8)
@@ -381,6 +437,14 @@ def run_prop(ctx, props_file, assume, known_match, witness_replay, rule, own_pur
         ctx.broken.append("correspondence H-entity: %s (%s.%s)" % (d["what"], d.get("class"), d.get("reducer")))
     for d in extra[:5]:
         ctx.broken.append("correspondence H-entity: %s (%s.%s)" % (d["what"], d.get("class"), d.get("reducer")))
+    xdiffs, xstats, xsamples = extension_correspondence(ctx)
+    for d in xdiffs[:20]:
+        ctx.broken.append("correspondence H-entity (extension): %s (%s.%s)" % (d["what"], d.get("class"), d.get("reducer")))
+    diffs = diffs + xdiffs
+    stats["extensions"] = xstats
+    stats["cases"] += sum(v.get("cases", 0) for v in xstats.values())
+    stats["distinct"] += sum(v.get("distinct", 0) for v in xstats.values())
+    samples = samples + xsamples
     ctx.cov["correspondence"] = stats
     ctx.cov["traces_validated_against_impl"] = stats["cases"]
     # ---- implementation-side search over all installed components
@@ -396,7 +460,10 @@ def run_prop(ctx, props_file, assume, known_match, witness_replay, rule, own_pur
     ctx.cov["distinct_nontrivial"] = stats["distinct"] + mstats.get("distinct_calls", 0)
     ctx.cov["samples"] = samples
     ctx.cov["rule"] = rule
-    ctx.cov["unmodelled"] = sorted(k for k in mstats.get("classes", {}) if k not in {v[1] for v in H.KINDS.values()} | {"MobComponent"})
+    modelled = {v[1] for v in H.KINDS.values()} | {"MobComponent", "AlwaysEnabledComponent"}
+    for ext in extensions():
+        modelled |= set(getattr(ext, "CLASSES", []))
+    ctx.cov["unmodelled"] = sorted(k for k in mstats.get("classes", {}) if k not in modelled)
     # ---- known findings
     opens = open_known(prop)
     unmatched = []
